@@ -45,6 +45,7 @@ Fails(e) == CASE e.ev = "reset" -> <<>>
               [] e.ev = "register" -> RegisterFails(e)
               [] e.ev = "lookup" -> LookupFails(e)
               [] e.ev = "pstream" -> StreamFails(e)
+              [] e.ev = "hang" -> <<e.prop \o ".hang">>    \* a call that never returned (recorded by the watchdog of the harness)
               [] OTHER -> <<"unknown-event">>
 
 Init == l = 1 /\ nfail = 0 /\ reg = <<>>
